@@ -299,6 +299,31 @@ def run(ck):
             o = rr.origins(rc[0][1]["args"][2], deep=True)
             ck.ob("DEFUSE", rr.path, "runs-stored-config", ("field", "config") in o or ("arg", 1) in o, "the resumed configuration is the stored one", rr.loc(rc[0][0]))
 
+    # events logged before a query-type interrupt stay with the suspended execution: the pending logs are taken out of the
+    # saved host only for interrupts that end a section (transfer, call, upgrade: `should_clear_logs()`); taking them for a
+    # query loses them, because a query produces no event in which they could be reported
+    pr = getfn(ck, "sc", E, E + "::v1::process_receive_result")
+    if pr:
+        scl = pr.calls(r"Interrupt::should_clear_logs$")
+        takes = [(bi, t) for (bi, t) in pr.calls(r"mem::take$|mem::replace$|mem::swap$|Vec::<.*>::(clear|drain)$|Logs::(clear|take)$") if ("field", "logs") in pr.origins(t["args"][0], deep=True)]
+        inter = [(bi, t) for (bi, t) in takes if scl and pr.dominates(scl[0][0], bi)]
+        ok = len(scl) == 1 and len(inter) >= 1 and all(any(k == "call:should_clear_logs" and v is True for (k, nn, v) in rules.conditions_at(pr, bi)) for (bi, t) in inter)
+        ck.ob("DOM", pr.path, "pending-logs-taken-only-when-the-interrupt-ends-a-section", ok,
+              "on an interrupt the pending logs are taken only under should_clear_logs()" if ok else
+              "the pending logs are removed from the suspended host also for interrupts that do not report them (queries): events logged before the query are lost", pr.loc(inter[0][0]) if inter else pr.loc())
+    f2 = getfn(ck, "sc", E, E + "::v1::Interrupt::should_clear_logs")
+    if f2:
+        adt = e.adts.get(E + "::v1::Interrupt")
+        tab = {}
+        for (sb, st) in f2.switches():
+            for v, tb in st["t"]:
+                ks = [op_const(s_["rv"]["a"]) for s_ in f2.stmts(tb) if s_.get("lhs") == [0, []] and s_["rv"].get("k") == "use"]
+                if ks and ks[0] is not None and adt and int(v) < len(adt["variants"]):
+                    tab[adt["variants"][int(v)]["name"]] = bool(const_int(ks[0]))
+        want = {"Transfer": True, "Call": True, "Upgrade": True}
+        ok = bool(tab) and all(tab.get(k) is True for k in want) and all(v is False for k, v in tab.items() if k not in want) and len(tab) >= 10
+        ck.ob("TAB", f2.path, "sections-end-at-transfer-call-upgrade", ok, "logs are reported (and cleared) at transfer, call and upgrade; the %d query interrupts keep them: %s" % (len(tab) - 3, tab) if ok else "should_clear_logs table: %s" % tab, f2.loc())
+
     host_conversion_cov(ck, e)
 
     # determinism
